@@ -4,7 +4,7 @@
    members b = the members ascending; card b = their number; denoted bs = the set a byte string denotes
    (None = nothing: must be refused); block_values b = the integers a block holds, ascending. *)
 From Coq Require Import ZArith List Bool Sorted.
-Require Bit64.
+Require Bit64 C08_Model C08_Spec.
 Require Import LE Marshal C09_Model C09_Lists C09_Bits C09_Case C09_Sound C09_Thms C09_Word C09_Check.
 Import ListNotations.
 Open Scope Z_scope.
@@ -53,6 +53,26 @@ Proof. exact iter1024_spec. Qed.
 Theorem c09_word_iter_forward : forall magic wr w add n,
   witer false wr w add n = map (fun i => wr (Z.of_nat i + add)) (fst (Bit64.iter_fwd magic (bools w) n)).
 Proof. exact word_iter_forward. Qed.
+
+(* both directions, every element type, every threshold, through C08's iterator theorems (C08_Iter.v iter64_spec /
+   iter1024_spec): what C08's loop-by-loop model of Bit64.IterAsT / RIterAsT and of the Bit1024 chain writes into the
+   slice is exactly the list the C09 model's witer / iter1024 returns - so the C09 model abstracts nothing unproved *)
+Theorem c09_iterators_c08 :
+  (forall ty add rev magic w s pos n, C08_Spec.wfw w = true ->
+     C08_Model.iter64 ty add rev magic w s pos n =
+     let vals := witer rev (C08_Model.norm ty) (Z.of_N w) add n in
+     match vals with
+     | [] => C08_Model.Ok s 0
+     | _ => if (0 <=? pos) && (pos + zlen vals <=? zlen s) then C08_Model.Ok (C08_Spec.splice s pos vals) (zlen vals) else C08_Model.Panic
+     end) /\
+  (forall ty rev magic ws s pos add n, C08_Spec.wfws ws = true ->
+     C08_Model.iter1024 ty rev magic ws s pos add n =
+     let vals := iter1024 rev (C08_Model.norm ty) (zwords ws) add n in
+     match vals with
+     | [] => C08_Model.Ok s 0
+     | _ => if (0 <=? pos) && (pos + zlen vals <=? zlen s) then C08_Model.Ok (C08_Spec.splice s pos vals) (zlen vals) else C08_Model.Panic
+     end).
+Proof. exact iterators_c08. Qed.
 
 (* ---- 64-bit blocks ---- *)
 (* every integer up to 2^32*1024-1025 comes back alone, in both directions, for every count >= 1; others are refused *)
@@ -121,6 +141,7 @@ Print Assumptions c09_unmarshal_total.
 Print Assumptions c09_member_ext.
 Print Assumptions c09_iter1024.
 Print Assumptions c09_word_iter_forward.
+Print Assumptions c09_iterators_c08.
 Print Assumptions c09_big_build.
 Print Assumptions c09_big_accepts.
 Print Assumptions c09_big_iteration.
